@@ -64,6 +64,7 @@ Definition dialog_step (maxr : Z) (p : phase) (e : ev) : option phase :=
       match e with
       | Deliver r' _ _ =>
           if str_eqb r r' then Some (match rs with [] => end_tx p | _ => await p rs end) else None
+      | Reply TDataErrEof _ _ => Some p   (* the stream ended inside the message: nothing is owed *)
       | _ => None
       end
   | None =>
@@ -103,7 +104,7 @@ Definition dialog_ok (maxr : Z) (evs : list ev) : bool :=
 Definition tag_eqb (a b : tag) : bool :=
   match a, b with
   | TLhlo, TLhlo | TMail, TMail | TRcpt, TRcpt | TData, TData
-  | TDataErrSize, TDataErrSize | TDataErrMsg, TDataErrMsg | TRset, TRset
+  | TDataErrSize, TDataErrSize | TDataErrMsg, TDataErrMsg | TDataErrEof, TDataErrEof | TRset, TRset
   | TNoop, TNoop | TQuit, TQuit | TVrfy, TVrfy | THelp, THelp | TUnknown, TUnknown => true
   | _, _ => false
   end.
